@@ -4,5 +4,5 @@ CONSTANTS
   EmitBS = 1
 INIT Init
 NEXT Next
-INVARIANTS TypeOK Refines NeverAltered CarryIsTail Emit
+INVARIANTS TypeOK Refines NeverAltered CarryIsTail ConcatLemma Emit
 CHECK_DEADLOCK FALSE
